@@ -13,6 +13,7 @@ import (
 	"fmt"
 	"os"
 	"path/filepath"
+	"regexp"
 	"sort"
 	"strings"
 	"sync"
@@ -50,6 +51,8 @@ func (s *State) key() string {
 	return hex.EncodeToString(h.Sum(nil))[:24]
 }
 
+var runIDInTemp = regexp.MustCompile(`("run":"|#)[0-9a-f]{16}`)
+
 // canonArt normalises what cannot matter: names of leftover temporaries, and the identifiers
 // of executions ("run" ids), which dawn only ever compares for equality: they are renamed in
 // order of first occurrence over the records in path order.
@@ -59,7 +62,8 @@ func canonArt(art map[string]string) map[string]string {
 	for k, v := range art {
 		switch {
 		case strings.HasPrefix(k, ".dawn/build/temp/") && !strings.HasSuffix(k, "/"):
-			temps = append(temps, v)
+			// leftover temporaries are never read back; the run identifiers inside them are random
+			temps = append(temps, runIDInTemp.ReplaceAllString(v, "$1?"))
 		case strings.HasPrefix(k, ".dawn/build/targets/") || strings.HasPrefix(k, ".dawn/build/sources/"):
 			recs = append(recs, k)
 		default:
@@ -288,7 +292,15 @@ func alphabet(prop string, thorough bool) []Op {
 	switch prop {
 	case "C01":
 		if thorough {
-			return pick(all...)
+			// deleting an undeclared output is tampering that no build is asked to repair: the
+			// differential with a from-scratch build would blame dawn for it (it stays in C02's alphabet)
+			var ops []string
+			for _, n := range all {
+				if n != "delete:out/mid" {
+					ops = append(ops, n)
+				}
+			}
+			return pick(ops...)
 		}
 		return pick("edit:src/a.txt", "edit:pkg/b.txt", "rename:dir/y.txt<->z.txt", "addremove:dir/w.txt", "const:K", "default:leaf.d", "code:helper", "closure:V",
 			"edge:top->leaf", "fail:mid", "delete:gen/g.txt", "build:top", "build:mid", "build:gen", "build:leaf")
